@@ -32,7 +32,7 @@ def main():
         sh(f"git -C /repo worktree add --detach {wt} HEAD")
         res = {}
         try:
-            rc, out = sh(f"git apply {dst}/patch.diff", cwd=wt)
+            pf = os.path.join(dst, "patch_rebased.diff"); pf = pf if os.path.exists(pf) else os.path.join(dst, "patch.diff"); rc, out = sh(f"git apply {pf}", cwd=wt)
             if rc != 0:
                 print(mid, "patch does not apply")
                 continue
